@@ -26,7 +26,9 @@ from sim import core, evidence, isolate, regmodel, report, runner, simfs  # noqa
 
 PROP = "C18"
 SCRIPT = os.path.join("checks", "c18.py")
-FAULT_KINDS = ["EIO", "EMFILE", "ENOENT", "short", "torn", "badutf8", "LISTDIR_EIO"]
+# A seventh kind, EIO on the directory *listing*, was withdrawn (DESIGN 9.15): pathlib's and glob's selectors swallow
+# every OSError of the listing, so it is not a fault "every loader can detect" - a loader sees an empty directory.
+FAULT_KINDS = ["EIO", "EMFILE", "ENOENT", "short", "torn", "badutf8"]
 _CODE = None
 
 
